@@ -20,7 +20,7 @@ import (
 func init() {
 	register(&Property{
 		ID:       "C05",
-		Patterns: []string{"./tick/...", "./udf/...", ".", "./client/v1", "./services/task_store", "./influxdb", "./edge"},
+		Patterns: []string{"./tick/...", "./udf/...", ".", "./client/v1", "./services/task_store", "./influxdb", "./edge", "./pipeline"},
 		Run:      runC05,
 		Explanation: "Crash classes decided at named sites, on every path: (1) the frames that must contain a panic own a deferred recover() that is executed unconditionally and does not re-panic (node goroutine, expression.Eval, match handler, scheduler worker, HTTP recovery, parser and evaluator entry points); " +
 			"(2) lexer cursor typestate: backup() is reached only when the width it subtracts is the width of the rune last consumed; (3) the parser releases the lexer goroutine on its error exit; " +
